@@ -6,7 +6,9 @@ package main
 
 import (
 	"fmt"
+	"math/big"
 	"math/bits"
+	"sort"
 	"strings"
 )
 
@@ -400,6 +402,11 @@ func Mul(a, b *Term) *Term {
 func UDiv(a, b *Term) *Term {
 	w := a.W()
 	if y, ok := b.ConstVal(); ok && y != 0 {
+		if x := mulByConstNoOverflow(a, y); x != nil {
+			if _, h := x.Bounds(); h < 1<<63 {
+				return x
+			}
+		}
 		if x, ok := a.ConstVal(); ok {
 			return Const(w, x/y)
 		}
@@ -416,6 +423,11 @@ func UDiv(a, b *Term) *Term {
 func URem(a, b *Term) *Term {
 	w := a.W()
 	if y, ok := b.ConstVal(); ok && y != 0 {
+		if x := mulByConstNoOverflow(a, y); x != nil {
+			if _, h := x.Bounds(); h < 1<<63 {
+				return Const(w, 0)
+			}
+		}
 		if x, ok := a.ConstVal(); ok {
 			return Const(w, x%y)
 		}
@@ -426,9 +438,107 @@ func URem(a, b *Term) *Term {
 	return bin(OpURem, a, b)
 }
 
+// SRange returns conservative signed bounds of a 64-bit term derived from its
+// structure (ok=false when nothing better than the full range is known).
+func (t *Term) SRange() (int64, int64, bool) {
+	if t.sort.W != 64 || t.sort.Arr {
+		return 0, 0, false
+	}
+	if lo, hi := t.Bounds(); hi < 1<<63 {
+		return int64(lo), int64(hi), true
+	}
+	fits := func(lo, hi *big.Int) (int64, int64, bool) {
+		if lo.IsInt64() && hi.IsInt64() {
+			return lo.Int64(), hi.Int64(), true
+		}
+		return 0, 0, false
+	}
+	switch t.op {
+	case OpConst:
+		return int64(t.val), int64(t.val), true
+	case OpAdd, OpSub:
+		l0, h0, ok0 := t.args[0].SRange()
+		l1, h1, ok1 := t.args[1].SRange()
+		if !ok0 || !ok1 {
+			return 0, 0, false
+		}
+		if t.op == OpAdd {
+			return fits(new(big.Int).Add(big.NewInt(l0), big.NewInt(l1)), new(big.Int).Add(big.NewInt(h0), big.NewInt(h1)))
+		}
+		return fits(new(big.Int).Sub(big.NewInt(l0), big.NewInt(h1)), new(big.Int).Sub(big.NewInt(h0), big.NewInt(l1)))
+	case OpMul:
+		c, ok := t.args[1].ConstVal()
+		l0, h0, ok0 := t.args[0].SRange()
+		if !ok || !ok0 {
+			return 0, 0, false
+		}
+		a := new(big.Int).Mul(big.NewInt(l0), big.NewInt(int64(c)))
+		b := new(big.Int).Mul(big.NewInt(h0), big.NewInt(int64(c)))
+		if a.Cmp(b) > 0 {
+			a, b = b, a
+		}
+		return fits(a, b)
+	case OpIte:
+		l1, h1, ok1 := t.args[1].SRange()
+		l2, h2, ok2 := t.args[2].SRange()
+		if !ok1 || !ok2 {
+			return 0, 0, false
+		}
+		if l2 < l1 {
+			l1 = l2
+		}
+		if h2 > h1 {
+			h1 = h2
+		}
+		return l1, h1, true
+	}
+	return 0, 0, false
+}
+
+// mulByConstNoOverflow reports x when a == x*c (c > 0 as a signed number) and
+// x*c provably stays inside the signed range of the width, so that signed
+// division by c undoes it exactly and the remainder is 0. Looks through ite.
+func mulByConstNoOverflow(a *Term, c uint64) *Term {
+	if c == 0 || a.W() != 64 || int64(c) < 0 {
+		return nil
+	}
+	switch a.op {
+	case OpConst:
+		if v := int64(a.val); v%int64(c) == 0 {
+			return Const(64, uint64(v/int64(c)))
+		}
+		return nil
+	case OpIte:
+		x, y := mulByConstNoOverflow(a.args[1], c), mulByConstNoOverflow(a.args[2], c)
+		if x == nil || y == nil {
+			return nil
+		}
+		return Ite(a.args[0], x, y)
+	case OpMul:
+		if y, ok := a.args[1].ConstVal(); !ok || y != c {
+			return nil
+		}
+		x := a.args[0]
+		lo, hi, ok := x.SRange()
+		if !ok {
+			return nil
+		}
+		l := new(big.Int).Mul(big.NewInt(lo), big.NewInt(int64(c)))
+		h := new(big.Int).Mul(big.NewInt(hi), big.NewInt(int64(c)))
+		if !l.IsInt64() || !h.IsInt64() {
+			return nil
+		}
+		return x
+	}
+	return nil
+}
+
 func SDiv(a, b *Term) *Term {
 	w := a.W()
 	if y, ok := b.ConstVal(); ok && y != 0 {
+		if x := mulByConstNoOverflow(a, y); x != nil {
+			return x
+		}
 		if x, ok := a.ConstVal(); ok {
 			sx, sy := signExt(x, w), signExt(y, w)
 			if sy == -1 {
@@ -453,6 +563,9 @@ func SDiv(a, b *Term) *Term {
 func SRem(a, b *Term) *Term {
 	w := a.W()
 	if y, ok := b.ConstVal(); ok && y != 0 {
+		if x := mulByConstNoOverflow(a, y); x != nil {
+			return Const(w, 0)
+		}
 		if x, ok := a.ConstVal(); ok {
 			sx, sy := signExt(x, w), signExt(y, w)
 			if sy == -1 {
@@ -485,6 +598,8 @@ func And(a, b *Term) *Term {
 		if _, h := a.Bounds(); h <= y && y&(y+1) == 0 {
 			return a // mask covers all possible bits
 		}
+	} else if a.id > b.id {
+		a, b = b, a
 	}
 	return bin(OpAnd, a, b)
 }
@@ -509,6 +624,9 @@ func Or(a, b *Term) *Term {
 		}
 	}
 	// or of zero-extended byte shifted pieces is left as is
+	if !b.IsConst() && a.id > b.id {
+		a, b = b, a
+	}
 	return bin(OpOr, a, b)
 }
 
@@ -548,7 +666,71 @@ func Xor(a, b *Term) *Term {
 			return BVNot(a)
 		}
 	}
+	if a.op == OpXor || b.op == OpXor || (!b.IsConst() && a.id > b.id) {
+		if t := xorNormal(a, b); t != nil {
+			return t
+		}
+	}
 	return bin(OpXor, a, b)
+}
+
+// xorNormal rebuilds a ^ b as a left-associated chain over the leaves of both
+// operands sorted by term id (equal leaves cancel, constants fold to the end),
+// so two xor trees over the same multiset of leaves are the same term. Chains
+// longer than xorChainMax are left alone (nil).
+const xorChainMax = 1024
+
+func xorNormal(a, b *Term) *Term {
+	w := a.W()
+	leaves := make([]*Term, 0, 16)
+	var collect func(t *Term) bool
+	var c uint64
+	collect = func(t *Term) bool {
+		for t.op == OpXor || t.op == OpNot {
+			if t.op == OpNot {
+				c ^= mask(w)
+				t = t.args[0]
+				continue
+			}
+			if !collect(t.args[1]) {
+				return false
+			}
+			t = t.args[0]
+		}
+		leaves = append(leaves, t)
+		return len(leaves) <= xorChainMax
+	}
+	if !collect(a) || !collect(b) {
+		return nil
+	}
+	sort.Slice(leaves, func(i, j int) bool { return leaves[i].id < leaves[j].id })
+	var acc *Term
+	for i := 0; i < len(leaves); i++ {
+		l := leaves[i]
+		if i+1 < len(leaves) && leaves[i+1] == l {
+			i++
+			continue
+		}
+		if v, ok := l.ConstVal(); ok {
+			c ^= v
+			continue
+		}
+		if acc == nil {
+			acc = l
+		} else {
+			acc = bin(OpXor, acc, l)
+		}
+	}
+	if acc == nil {
+		return Const(w, c)
+	}
+	if c == 0 {
+		return acc
+	}
+	if c == mask(w) {
+		return BVNot(acc)
+	}
+	return bin(OpXor, acc, Const(w, c))
 }
 
 func BVNot(a *Term) *Term {
@@ -913,7 +1095,6 @@ func Eq(a, b *Term) *Term {
 	return TS.mk(OpEq, BoolSort, 0, "", 0, 0, a, b)
 }
 
-
 // stripAdd removes a common / one-sided constant addend from both sides of a
 // comparison when neither side can wrap around (decided from bounds).
 func stripAdd(a, b *Term) (*Term, *Term, bool) {
@@ -1016,6 +1197,33 @@ func nonNeg(a *Term) bool {
 	return h < uint64(1)<<uint(a.W()-1)
 }
 
+// commonScale finds a constant c > 1 such that both a and b are exact,
+// non-overflowing multiples x*c and y*c (one side may be a constant), and
+// returns x, y.
+func commonScale(a, b *Term) (*Term, *Term) {
+	var c uint64
+	for _, t := range []*Term{a, b} {
+		u := t
+		for u.op == OpIte {
+			u = u.args[1]
+		}
+		if u.op == OpMul {
+			if v, ok := u.args[1].ConstVal(); ok && v > 1 {
+				c = v
+				break
+			}
+		}
+	}
+	if c == 0 || a.W() != 64 {
+		return nil, nil
+	}
+	x, y := mulByConstNoOverflow(a, c), mulByConstNoOverflow(b, c)
+	if x == nil || y == nil {
+		return nil, nil
+	}
+	return x, y
+}
+
 func SLt(a, b *Term) *Term {
 	if a == b {
 		return TFalse
@@ -1025,6 +1233,9 @@ func SLt(a, b *Term) *Term {
 	}
 	if nonNeg(a) && nonNeg(b) {
 		return ULt(a, b)
+	}
+	if x, y := commonScale(a, b); x != nil {
+		return SLt(x, y)
 	}
 	return TS.mk(OpSLt, BoolSort, 0, "", 0, 0, a, b)
 }
@@ -1038,6 +1249,9 @@ func SLe(a, b *Term) *Term {
 	}
 	if nonNeg(a) && nonNeg(b) {
 		return ULe(a, b)
+	}
+	if x, y := commonScale(a, b); x != nil {
+		return SLe(x, y)
 	}
 	return TS.mk(OpSLe, BoolSort, 0, "", 0, 0, a, b)
 }
